@@ -51,7 +51,7 @@ fn case(s: &mut dyn Src, fl: &Flavour, sch: &Sch, tcfg: &TypedCfg, exhaustive: b
     let nullable: Vec<(usize, String)> = {
         let mut v: Vec<(usize, String)> = vec![];
         for t in &base.touches {
-            if !t.ty.is_nn() && !v.iter().any(|(n, f)| *n == t.node && *f == t.field) {
+            if !t.ty.is_nn() && (dynamic || !vschemas::z::is_plain_data_field(&t.parent_type, &t.field)) && !v.iter().any(|(n, f)| *n == t.node && *f == t.field) {
                 v.push((t.node, t.field.clone()));
             }
         }
